@@ -21,7 +21,7 @@ import time
 ROOT = '/verif'
 REPO = '/repo'
 COQ = os.path.join(ROOT, 'coq')
-DRIVER = os.path.join(ROOT, 'ocaml', '_build', 'driver')
+DRIVERS = os.path.join(ROOT, 'ocaml', '_build')
 GUARD = 'EVENTPP_VERIF'
 MASK = (1 << 64) - 1
 
@@ -161,6 +161,7 @@ def load_known():
 # --------------------------------------------------------------------------- Coq
 
 def ensure_coq_makefile():
+    sh('make coqproject', cwd=ROOT)
     mk = os.path.join(COQ, 'Makefile.coq')
     if not os.path.exists(mk) or os.path.getmtime(mk) < os.path.getmtime(os.path.join(COQ, '_CoqProject')):
         sh('coq_makefile -f _CoqProject -o Makefile.coq', cwd=COQ)
@@ -187,6 +188,11 @@ def coq_prove(ctx, files, timeout=1500):
     if not ok_leaf:
         res['ok'] = False
         res['errors'].append('tie A (leafgen) could not translate: %s' % json.dumps(linfo.get('failed') or linfo.get('error')))
+    # the extracted models follow the regenerated leaves too (no-op when nothing changed);
+    # when a proof then fails, the checks fall back to the extracted SPEC as oracle
+    ex = ' '.join(f.replace('.v', '.vo') for f in sorted(os.listdir(COQ)) if f.startswith('Extract') and f.endswith('.v'))
+    sh('timeout %d make -f Makefile.coq -k -j16 %s' % (timeout, ex), cwd=COQ, timeout=timeout + 60)
+    sh('make -C %s' % os.path.join(ROOT, 'ocaml'), timeout=600)
     targets = ' '.join(f.replace('.v', '.vo') for f in files)
     rc, out, err = sh('timeout %d make -f Makefile.coq -k -j16 %s' % (timeout, targets), cwd=COQ, timeout=timeout + 60)
     if rc != 0:
@@ -270,8 +276,9 @@ SAN_ENV = dict(os.environ, ASAN_OPTIONS='detect_leaks=1:abort_on_error=0:exitcod
                UBSAN_OPTIONS='print_stacktrace=1:halt_on_error=1', LSAN_OPTIONS='exitcode=98')
 
 
-def run_model(domain, text, timeout=600):
-    rc, out, err = sh([DRIVER, domain], input=text, timeout=timeout)
+def run_model(domain, text, timeout=600, driver='cl'):
+    """domain: the mode argument understood by ocaml/_build/driver_<driver>"""
+    rc, out, err = sh([os.path.join(DRIVERS, 'driver_' + driver), domain], input=text, timeout=timeout)
     if rc != 0:
         raise RuntimeError('model driver failed (%s): %s' % (domain, err[-500:]))
     return parse_traces(out)[0]
